@@ -46,7 +46,7 @@ def run_workers(ddir, datasets, hashseeds, spec):
     specp = os.path.join(ddir, "spec.json")
     with open(specp, "w", encoding="utf8") as f:
         json.dump(spec, f, ensure_ascii=False)
-    cache = os.path.join(env.BUILD, "xdg-cache")
+    cache = env.fresh_cache()      # initially empty: workers must see the current data files
 
     def work(h):
         outp = os.path.join(ddir, "out_%s.json" % h)
